@@ -860,12 +860,9 @@ func (r *runner) oracleProbe(p *probeRes, top int64, v func(string, ...interface
 		sort.Strings(out)
 		return out
 	}
-	attributeF8 := false
 	if strings.Join(realLocked, ",") != strings.Join(specLocked(), ",") {
 		l.trunc = true
-		if len(f8) > 0 && strings.Join(realLocked, ",") == strings.Join(specLocked(), ",") {
-			attributeF8 = true
-		} else {
+		if !(len(f8) > 0 && strings.Join(realLocked, ",") == strings.Join(specLocked(), ",")) {
 			v("C12 key=lease-set: leases in force: store [%s] ledger [%s]", strings.Join(realLocked, ","), strings.Join(specLocked(), ","))
 		}
 		l.trunc = false
@@ -878,7 +875,6 @@ func (r *runner) oracleProbe(p *probeRes, top int64, v func(string, ...interface
 	if len(f8) > 0 {
 		l.trunc = true
 		defer func() { l.trunc = false }()
-		_ = attributeF8
 		{
 			// decide whether the early release is visible to callers: is the output offered as spendable?
 			for _, op := range f8 {
@@ -1027,21 +1023,6 @@ func (r *runner) oracleWatch(cs []wtxmgr.Credit, v func(string, ...interface{}))
 	if d := setDiff(nz(real, true), nz(spec, true)); d != "" {
 		v("C01 key=rollback.zero-value-credit: zero-value credited outputs, OutputsToWatch vs ledger truth: %s", d)
 	}
-}
-
-// stripZeroDebits removes debit entries of amount 0 (zero-value credits are outside C13's oracle, see F6).
-func stripZeroDebits(s string) string {
-	i := strings.Index(s, "{d")
-	if i < 0 {
-		return s
-	}
-	var keep []string
-	for _, d := range strings.Split(strings.TrimSuffix(s[i+2:], "}"), ",") {
-		if d != "" && !strings.HasSuffix(d, ":0") {
-			keep = append(keep, d)
-		}
-	}
-	return s[:i+2] + strings.Join(keep, ",") + "}"
 }
 
 func (r *runner) oracleDetails(h chainhash.Hash, d *wtxmgr.TxDetails, v func(string, ...interface{})) {
